@@ -287,6 +287,23 @@ func chkCase(seed uint64, idx int) *CaseSpec {
 						if w.kind == "mplsx" {
 							w = ge{w.ni, "mpls", "0"}
 						}
+						// now and then the entry's key under another entry type (an IPv6 prefix wanted
+						// as an IPv4 entry, a group id as a next-hop index or a label, …): absent
+						// unless an entry of that type has the key too
+						if r.IntN(4) == 0 {
+							switch w.kind {
+							case "v4":
+								w.kind = "v6"
+							case "v6":
+								w.kind = "v4"
+							case "nhg":
+								w.kind = []string{"nh", "mpls"}[r.IntN(2)]
+							case "nh":
+								w.kind = []string{"nhg", "mpls"}[r.IntN(2)]
+							case "mpls":
+								w.kind = []string{"nhg", "nh"}[r.IntN(2)]
+							}
+						}
 						wants = append(wants, w)
 					} else {
 						wants = append(wants, mk())
